@@ -271,6 +271,14 @@ theorem compile_no_pybug : ∀ (pattern : Str) (custom : List (Str × Str)) (fla
     ∀ w, e.kind ≠ .pyBug w :=
   fun pattern custom flags _ h => compile_no_pybug_gen asciiEnv Gen.builtinsRec pattern custom flags h
 
+/-- The same for the environment the driver runs the parser model in: ASCII folding plus the four
+    non-ASCII code points Python's `re.IGNORECASE` identifies with `i`, `s`, `k` (e.g. `ſ` is accepted
+    in the position of the attribute case flag). -/
+theorem compile_no_pybug_py : ∀ (pattern : Str) (custom : List (Str × Str)) (flags : Nat) (e : Err),
+    Parser.compile pyFoldEnv Gen.lexicon Gen.builtinsRec pattern custom flags = .error e →
+    ∀ w, e.kind ≠ .pyBug w :=
+  fun pattern custom flags _ h => compile_no_pybug_gen pyFoldEnv Gen.builtinsRec pattern custom flags h
+
 /-- `compile` returns a selector list or raises one of the documented errors. -/
 theorem compile_total (env : CharEnv) (B : Builtins) (pattern : Str) (custom : List (Str × Str))
     (flags : Nat) :
